@@ -180,6 +180,7 @@ def run(ctx):
         Bs = list(range(1, N + 1)) if N <= 12 else sorted({1, 2, 7, 8, N // 2, N - 1, N} | set(
             int(x) for x in ctx.rng.integers(1, N + 1, size=ctx.budget(4, 10))))
         check_buffer_api(ctx, E, T, Bs)
+        ctx.gc(2)
     for (E, T, nb, ep) in ctx.budget([(2, 7, 3, 3), (3, 5, 2, 3)],
                                      [(2, 7, 3, 3), (3, 5, 2, 3), (2, 4, 4, 2), (1, 7, 3, 4), (4, 5, 3, 5), (5, 3, 7, 2), (2, 11, 4, 3)]):
         check_train_visits(ctx, E, T, nb, ep, trials=ctx.budget(3, 6))
